@@ -3,7 +3,7 @@ import os
 import random
 import re
 
-from .. import proto, srv
+from .. import common, proto, srv
 from .. import standalone as sa
 from . import c01
 
@@ -141,6 +141,94 @@ def resolve_reference(p):
 SYMLINK_NAMES = (b"link_in", b"dirlink_in", b"link_out", b"dirlink_out", b"abs_link_out", b"dirlink_out2", b"link_to_root", b"link_root2", b"dirlink_root2", b"link_root2b", b"link_at2", b"leakidx", b"inidx")
 
 
+def daemon_relative_root_probe(basedir, exe, windex, res, cnt):
+    """'inside the configured document root': the documented default root is '.', a relative path. A service started with daemon.enable
+    changes its directory to '/' when it detaches; the root has to mean the directory the service was started in, not '/'.
+    The server is started as a real daemon (double fork), found again through its lock file and asked for planted files by the
+    absolute paths they have in the file system."""
+    import signal, subprocess, socket, time, json
+    box = os.path.join(basedir, "dbox%d" % windex)
+    markers = build_sandbox(box)
+    pidfile = os.path.join(box, "daemon.pid")
+    port = srv.free_ports(1)[0]
+    cfg = {"service": {"api": "http", "ip": "127.0.0.1", "port": port, "worker_threads": 2}, "http": {"script_names": []},
+           "file_server": {"enable": True, "document_root": "root" if windex % 2 else ".", "listing": True, "check_symlink": windex % 4 < 2},
+           "daemon": {"enable": True, "lock": pidfile}, "logging": {"level": "error"}}
+    startdir = box if windex % 2 else os.path.join(box, "root")
+    cfgfile = os.path.join(box, "daemon_config.js")
+    with open(cfgfile, "w") as f:
+        json.dump(cfg, f)
+    e = dict(os.environ)
+    e.update(common.SAN_ENV)
+    p = subprocess.Popen([exe, "--config", cfgfile, "--log", os.path.join(box, "daemon_events.jsonl")], stdin=subprocess.PIPE, stdout=subprocess.DEVNULL, stderr=open(os.path.join(box, "daemon_stderr.txt"), "wb"), env=e, cwd=startdir)   # the harness server quits when its control pipe closes
+    try:
+        p.wait(60)
+    except subprocess.TimeoutExpired:
+        p.kill()
+        p.wait()
+        raise RuntimeError("daemon probe: the starting process did not leave")
+    pid = None
+    t0 = time.time()
+    up = False
+    while time.time() - t0 < 30 and not up:
+        try:
+            socket.create_connection(("127.0.0.1", port), timeout=1).close()
+            up = True
+        except OSError:
+            time.sleep(0.05)
+    try:
+        pid = int(open(pidfile).read().strip() or "0")
+    except (OSError, ValueError):
+        pid = None
+    if not up or not pid:
+        if pid:
+            os.kill(pid, signal.SIGKILL)
+        raise RuntimeError("daemon probe: daemon did not come up (pid %r): %s" % (pid, open(os.path.join(box, "daemon_stderr.txt"), "rb").read()[-300:]))
+    try:
+        def get(path):
+            c = socket.create_connection(("127.0.0.1", port), timeout=20)
+            c.sendall(b"GET " + path + b" HTTP/1.0\r\n\r\n")
+            data = b""
+            while True:
+                d = c.recv(65536)
+                if not d:
+                    break
+                data += d
+            c.close()
+            return data
+        asked = [b"/a.txt", b"/sub/b.txt", b"/"]
+        for m, (area, rel) in sorted(markers.items()):
+            if re.match(r"^[A-Za-z0-9._/-]+$", rel):
+                asked.append(os.path.join(box, area, rel).encode())
+                if area != "root":
+                    asked.append(("/../" + area + "/" + rel).encode())
+        asked += [box.encode() + b"/", box.encode() + b"/outside/", b"/root/a.txt"]
+        for path in asked:
+            reply = get(path)
+            cnt("daemon_mode_requests")
+            for m, (area, rel) in markers.items():
+                if m in reply:
+                    if area == "root":
+                        cnt("daemon_mode_files_served_from_the_root")
+                    elif not (cfg["file_server"]["check_symlink"] is False and (area, rel) in SYMLINK_REACHABLE):
+                        res["viol"].append({"key": "c13:served-file-outside-document-roots:daemon-mode-relative-root",
+                                            "detail": "service started in %s with document_root %r and daemon.enable: request %r returned the contents of %s/%s" % (startdir, cfg["file_server"]["document_root"], path, area, rel),
+                                            "replay": {"config": cfg, "cwd": startdir, "path": path.decode("latin-1")}})
+                        return
+            if reply.startswith(b"HTTP/1.0 200") and is_listing_body(reply) and (b"outside" in reply and b"root2" in reply):
+                res["viol"].append({"key": "c13:listing-of-directory-outside-document-roots:daemon-mode-relative-root", "detail": "request %r lists the parent of the document root" % path, "replay": {"config": cfg, "cwd": startdir, "path": path.decode("latin-1")}})
+                return
+    finally:
+        try:
+            os.kill(pid, signal.SIGTERM)
+            for _ in range(100):
+                os.kill(pid, 0)
+                time.sleep(0.05)
+            os.kill(pid, signal.SIGKILL)
+        except OSError:
+            pass
+
+
 def worker(args):
     basedir, exe, seed, ncases, windex = args
     rnd = random.Random(seed)
@@ -150,6 +238,8 @@ def worker(args):
         res["counters"][k] = res["counters"].get(k, 0) + n
     S = None
     try:
+        if windex < 4:
+            daemon_relative_root_probe(basedir, exe, windex, res, cnt)
         for cfgi in range(2):
             if res["viol"]:
                 break
@@ -342,6 +432,6 @@ def run(ck):
               "per server instance a sandbox (document root, sibling root2, two alias targets, outside areas, symlinks to files and directories inside and outside incl. absolute and nested ones, FIFO, dot-files, HTML-special names) and a "
               "configuration drawn from check_symlink x listing x 0..2 aliases x sync/async; request paths from 50 segment kinds ('.', '..', empty, symlinks, alias and near-alias prefixes, encoded separators, NUL, non-UTF-8) with five "
               "percent-encoding styles incl. double encoding, over HTTP and (PATH_INFO verbatim, also without leading slash) SCGI; oracles: marker containment, listing only when enabled / no dot-files / escaped, canonical "
-              "requests served from the right root, no 5xx, server alive. non-trivial = distinct configurations",
+              "requests served from the right root, no 5xx, server alive; four real daemons (daemon.enable, double fork, found again through the lock file) with a relative document root ('.' and 'root') asked for every planted file by its absolute file-system path. non-trivial = distinct configurations",
               "requests", "configs", min_evals=8000,
-              required_nonzero=("markers_served", "status_404", "status_200", "listings", "canonical_checked", "listing_escaped_names_seen"))
+              required_nonzero=("markers_served", "status_404", "status_200", "listings", "canonical_checked", "listing_escaped_names_seen", "daemon_mode_requests", "daemon_mode_files_served_from_the_root"))
